@@ -1,6 +1,7 @@
 package c13
 
 import (
+	"sync/atomic"
 	"testing"
 
 	"verif/harness/internal/vstat"
@@ -10,6 +11,8 @@ import (
 // validator, seeded with one valid payload per constructor. Oracle inside the target: the
 // validator never panics, and whatever it accepts is either one of the seed payloads or is
 // internally consistent according to the harness reference model.
+var fuzzExecs atomic.Int64
+
 func FuzzValidatePayload(f *testing.F) {
 	var seeds [][3]part
 	for kind := 0; kind < nCtors; kind++ {
@@ -49,6 +52,10 @@ func FuzzValidatePayload(f *testing.F) {
 					t.Fatalf("validator accepted a payload the reference model finds inconsistent: %v", merr)
 				}
 			}
+		}
+		// workers are killed, not exited: write the counters every so often
+		if n := fuzzExecs.Add(1); n%1000 == 0 {
+			defer vstat.Flush()
 		}
 		vstat.Record("FuzzValidatePayload", vstat.Outcome{Sig: vstat.Hash(hdr, hdrId, acl, aclId, set, setId), NonTrivial: err == nil, Classes: classes}, nil)
 	})
